@@ -5,6 +5,15 @@ VERIF = os.path.dirname(os.path.dirname(os.path.abspath(__file__)))
 
 # id -> (category, technique, text, note, design_ref)
 CHECKS = {
+    'C18': ('exploration', 'randomised differential monitoring: real mp::Equal / std::hash on factory-built trees vs. an independent shadow-tree oracle, under ASan',
+            'Random expression trees over every expression kind are materialised twice through the real ExprFactory together with single-point mutants; Equal must agree with a structural comparison of the shadows (reflexive, symmetric, transitive, exact), equal trees must hash equally, and ASan/UBSan-bounds watch the comparison and hashing code.',
+            'own shadow-tree comparison is the reference; UnsupportedError for symbolic numberof is a counted refusal', '2/C18'),
+    'C14': ('exploration', 'hostile-input monitoring of the real SOLReader2 under ASan+UBSan with an online monitor in the SOLHandler',
+            'Valid text/CRLF/binary .sol files from independent encoders are mutated (truncation, hostile counts, suffix headers, long lines, NULs) and read with declared sizes 0/smaller/equal/larger by handlers that drain all/some/none; every sanitizer report, escaped exception, undocumented return code, over-long vector offer, over-long suffix name/table or swallowed read error is a violation.',
+            'ASan red zones + UBSan instrumentation (intra-object overflows only via UBSan bounds); bad_alloc/allocator-limit aborts for file-declared gigantic sizes are counted as resource exhaustion', '2/C14'),
+    'C05': ('exploration', 'round-trip monitoring: real WriteSolFile -> real SOLReader2 with a field-by-field data-equality oracle, under ASan',
+            'Random solutions (messages with blank/CR/boundary-length lines, options, absent/full vectors of adversarial doubles, all suffix kinds with tables) are written by the library writer and read back by the library reader; everything the handler receives is compared with what was written using the tolerances the property states, including the non-finite rejection clause.',
+            'the recording SOLHandler and the comparison are ours; three known findings (0 options, vbtol form, |v|~DBL_MAX) are listed in known_findings.jsonl', '2/C05'),
     'C17': ('exploration', 'exhaustive/boundary operand enumeration of the real SafeInt templates under ASan+UBSan, judged by an __int128 reference oracle',
             'All operand pairs of the 8-bit instantiations (and, in the thorough tier, of the 16-bit ones) plus boundary/random pairs of int, long, long long, unsigned, size_t and all 10x10 constructor type pairs are executed on the real templates; every result is compared with exact 128-bit arithmetic and UBSan watches for signed overflow. Exhaustive for the small instantiations of the same template code, sampled for the wide ones.',
             'gcc __int128 arithmetic is the reference; UBSan signed-integer-overflow instrumentation', '2/C17'),
